@@ -246,6 +246,53 @@ def _grammar(ctx, model, table):
                f"{show(t)} is emitted as '{s}', which C groups as {show(back)}: "
                "missing parentheses change the value", dict(facts, emitted=s))
 
+    # C types: `/` on two operands of integer type truncates (6.5.5); a
+    # Quotient node is true division.  Whatever is emitted for a Quotient of
+    # two integer constants must not be an integer division.
+    def int_typed(c):
+        if c[0] == "Const":
+            return isinstance(c[1], int)
+        if c[0] in ("Neg", "Pos", "BitwiseNot"):
+            return int_typed(c[1])
+        if c[0] in ("Mul", "Div", "Mod", "Add", "Sub"):
+            return int_typed(c[1]) and int_typed(c[2])
+        return False
+
+    def divisions(c):
+        if isinstance(c, tuple):
+            if c and c[0] == "Div":
+                yield c
+            for x in c:
+                yield from divisions(x)
+
+    n_div = 0
+    for name, t in (
+            ("1/2", ("Quotient", ("Const", 1), ("Const", 2))),
+            ("-1/2", ("Quotient", ("Const", -1), ("Const", 2))),
+            ("3/-2", ("Quotient", ("Const", 3), ("Const", -2))),
+            ("(1/2)*v", ("Product", (("Quotient", ("Const", 1), ("Const", 2)),
+                                     V[0]))),
+            ("v**(1/2)", ("Power", V[0], ("Quotient", ("Const", 1),
+                                          ("Const", 2)))),
+            ("v+3/4", ("Sum", (V[0], ("Quotient", ("Const", 3), ("Const", 4))))),
+            ("1/(1/2)", ("Quotient", ("Const", 1),
+                         ("Quotient", ("Const", 1), ("Const", 2))))):
+        try:
+            s_ = printer.print(t, 0)
+            back = cparser.parse(s_)
+        except (Unsupported, ModelParseError) as e:
+            raise AnalysisError(f"C printer/parser model: {show(t)}: {e}")
+        n_div += 1
+        bad = [d for d in divisions(back) if int_typed(d[1]) and int_typed(d[2])]
+        ctx.ob(f"T/c-types/true-division-of-integer-constants:{name}", not bad,
+               loc,
+               f"'{s_}' divides in floating point" if not bad else
+               f"{show(t)} is emitted as '{s_}': in C both operands of that '/' "
+               "have integer type, so it truncates (1 / 2 is 0) where the "
+               "Quotient node means true division (0.5)",
+               {"emitted": s_})
+    ctx.floor("integer-constant quotient probes", n_div, 7)
+
     n = 0
     for P, ar in KINDS.items():
         for pos in range(ar):
